@@ -14,7 +14,8 @@ prop(
     level_note="Trusted: the harness channel/journal model (truthful acks, loss* ack? per packet), the PRF, the explicit-op runner. Histories cut short by another property's defect "
     "(C11 uni window, C12 limit decrease) are counted as foreign_root_cause_* and reported by that property's check. Uni and bidi-remote stream windows are equal here (the unequal case is C11's).",
     design_ref="DESIGN.md §3 C01",
-    legs=[dict(name="e2e", crate="l1rec", sub="c01", shards={Q: 16, T: 16}, budget={Q: 2500, T: 100000}, timeout=1800)],
+    legs=[dict(name="e2e", crate="l1rec", sub="c01", shards={Q: 16, T: 16}, budget={Q: 2500, T: 100000}, timeout=1800),
+          dict(name="l2", crate="l2", sub="c01", shards={Q: 8, T: 16}, budget={Q: 5, T: 200}, timeout={Q: 900, T: 7200})],
     floors={Q: {"bytes_read_and_verified": 100_000_000, "retransmitted_stream_frames": 20_000, "ack_after_loss": 5_000, "pkts_dropped": 5_000, "pkts_duplicated": 3_000,
                 "reordered_deliveries": 5_000, "resets_seen_by_reader": 500, "cases_completed_all_streams": 30_000, "distinct": 20_000, "sets.packet_capacities": 15}},
     assumptions=["acknowledgements are truthful: a packet is acked only after a copy of it was delivered (the receive side of ack generation is C10's subject)",
